@@ -272,7 +272,8 @@ class ST:
                 size = z3.simplify(size) if is_z3(size) else size
                 if is_z3(lo) or is_z3(hi) or (is_z3(n) and not (isinstance(lo, int) and lo == 0 and hi is n)):
                     # python / torch clamp slice bounds to the extent; the index-function model does not, so the bounds must lie inside
-                    I.ex.oblige("slice.bounds_within_the_extent", z3.And(to_z3(lo) >= 0, to_z3(lo) <= to_z3(hi), to_z3(hi) <= to_z3(n)))
+                    # (a `structure.` obligation: when it fails the MODEL does not apply - undecided, never a violation)
+                    I.ex.oblige("structure.slice.bounds_within_the_extent", z3.And(to_z3(lo) >= 0, to_z3(lo) <= to_z3(hi), to_z3(hi) <= to_z3(n)))
                 shape.append(size)
                 maps.append(("s", lo))
             else:
